@@ -1,6 +1,6 @@
 (* C18: block root -> slot read-through cache.
    Transcribed from services/cache/standard/blockroottoslot.go (BlockRootToSlot,
-   SetBlockRootToSlot, cleanBlockRootToSlot) and events.go (handleBlock).
+   SetBlockRootToSlot, cleanBlockRootToSlot) and events.go (handleBlock, handleHead).
    Definitions only. *)
 From Verif Require Import Lib.Base.
 
@@ -24,15 +24,37 @@ Fixpoint del (s : state) (r : root) : state :=
 
 Definition set (s : state) (r : root) (sl : slot) : state := (r, sl) :: del s r.
 
+(* Overlapping lookups.  BlockRootToSlot is not atomic: it reads the map under the read lock,
+   and on a miss calls the header provider WITHOUT any lock, then stores under the write lock.
+   Every goroutine that misses performs its own fetch (no coalescing) and returns the outcome of
+   its own fetch.  A group of overlapping lookups is the list of its micro-events in the order of
+   their instants; block events and cleaning runs may fall in between. *)
+Inductive pev :=
+| PBegin (i : N) (r : root)                    (* goroutine i enters BlockRootToSlot r: the map read *)
+| PEnd (i : N) (r : root) (f : option slot)    (* the header provider answers goroutine i's fetch of r *)
+| PEvent (r : root) (sl : slot)                (* a block event handled meanwhile *)
+| PClean (cur_epoch spe : N).                  (* the cleaning job running meanwhile *)
+
+(* lookup id, its root, Some slot | None = error *)
+Definition answer := (N * root * option slot)%type.
+
 Inductive op :=
-| Event (r : root) (sl : slot)                 (* block event: handleBlock -> SetBlockRootToSlot *)
+| Event (r : root) (sl : slot)                 (* block event: handleBlock -> SetBlockRootToSlot (also the
+                                                  public SetBlockRootToSlot used by the controller) *)
 | Lookup (r : root) (fetch : option slot)      (* BlockRootToSlot; what the header provider would answer *)
-| Clean (cur_epoch spe : N).                   (* cleanBlockRootToSlot with chain time at cur_epoch *)
+| Clean (cur_epoch spe : N)                    (* cleanBlockRootToSlot with chain time at cur_epoch *)
+| Head (r : root) (sl : slot) (blk : option (root * slot))
+                                               (* head event: handleHead fetches the signed block of the head
+                                                  root (blk = parent root and slot of the block the provider
+                                                  answers, None = the fetch fails) and updates the execution
+                                                  chain head from it; it does not touch the root -> slot map *)
+| Par (evs : list pev).                        (* a group of overlapping lookups *)
 
 Inductive out :=
 | ONone
 | OSlot (sl : slot)
-| OErr.
+| OErr
+| OMany (answers : list answer).               (* the answers of a group, in order of completion *)
 
 Definition retention : N := 64.
 
@@ -42,6 +64,36 @@ Definition min_slot (cur_epoch spe : N) : N := mul64 (cur_epoch - retention) spe
 Definition clean (s : state) (cur_epoch spe : N) : state :=
   if cur_epoch <=? retention then s
   else filter (fun p => negb (snd p <? min_slot cur_epoch spe)) s.
+
+(* one micro-event of a group; [pend] = ids of the goroutines that missed and are fetching *)
+Definition remove_id (i : N) (pend : list N) : list N := filter (fun j => negb (j =? i)) pend.
+
+Definition pstep (s : state) (pend : list N) (e : pev) : state * list N * option answer :=
+  match e with
+  | PBegin i r =>
+      match get s r with
+      | Some sl => (s, pend, Some (i, r, Some sl))
+      | None => (s, i :: pend, None)
+      end
+  | PEnd i r f =>
+      if memb N.eqb i pend then
+        match f with
+        | Some sl => (set s r sl, remove_id i pend, Some (i, r, Some sl))
+        | None => (s, remove_id i pend, Some (i, r, None))
+        end
+      else (s, pend, None)                      (* it was a hit: the provider is never asked *)
+  | PEvent r sl => (set s r sl, pend, None)
+  | PClean e spe => (clean s e spe, pend, None)
+  end.
+
+Fixpoint par_run (s : state) (pend : list N) (evs : list pev) : state * list answer :=
+  match evs with
+  | [] => (s, [])
+  | e :: evs' =>
+      let '(s1, pend1, a) := pstep s pend e in
+      let '(s2, ans) := par_run s1 pend1 evs' in
+      (s2, match a with Some x => x :: ans | None => ans end)
+  end.
 
 Definition step (s : state) (o : op) : state * out :=
   match o with
@@ -56,6 +108,8 @@ Definition step (s : state) (o : op) : state * out :=
           end
       end
   | Clean e spe => (clean s e spe, ONone)
+  | Head _ _ _ => (s, ONone)
+  | Par evs => let '(s', ans) := par_run s [] evs in (s', OMany ans)
   end.
 
 Fixpoint run (s : state) (ops : list op) : state * list out :=
